@@ -122,6 +122,7 @@ func suiteProxy(r *rng, n int) {
 		cache.ResetDispatchers(nil)
 		cache.ResetDispatchers([]config.CacheConfig{{Name: "c1", Size: 100, HitForPass: "300s"}})
 		upstream.Reset([]config.UpstreamConfig{{Name: "u1", AcceptEncoding: upAE, Servers: []config.UpstreamServerConfig{{Addr: origin.URL}}}})
+		waitUpstreamHealthy("u1")
 		location.Reset([]config.LocationConfig{lc})
 		s := server.NewServer(server.ServerOption{Addr: ":0", Locations: []string{"l1"}, Cache: "c1", CompressMinLength: 1 << 20})
 		e := elton.New()
@@ -247,6 +248,7 @@ func proxyHfpConditionalHistory() {
 		cache.ResetDispatchers(nil)
 		cache.ResetDispatchers([]config.CacheConfig{{Name: "c1", Size: 100, HitForPass: "300s"}})
 		upstream.Reset([]config.UpstreamConfig{{Name: "u1", Servers: []config.UpstreamServerConfig{{Addr: origin.URL}}}})
+		waitUpstreamHealthy("u1")
 		location.Reset([]config.LocationConfig{{Name: "l1", Upstream: "u1"}})
 		s := server.NewServer(server.ServerOption{Addr: ":0", Locations: []string{"l1"}, Cache: "c1", CompressMinLength: 1 << 20})
 		e := elton.New()
@@ -292,6 +294,7 @@ func proxyTimeoutHistory() {
 	cache.ResetDispatchers(nil)
 	cache.ResetDispatchers([]config.CacheConfig{{Name: "c1", Size: 100, HitForPass: "300s"}})
 	upstream.Reset([]config.UpstreamConfig{{Name: "u1", Servers: []config.UpstreamServerConfig{{Addr: hung.URL}}}})
+	waitUpstreamHealthy("u1")
 	location.Reset([]config.LocationConfig{{Name: "l1", Upstream: "u1", ProxyTimeout: "300ms"}})
 	s := server.NewServer(server.ServerOption{Addr: ":0", Locations: []string{"l1"}, Cache: "c1", CompressMinLength: 1 << 20})
 	e := elton.New()
